@@ -12,7 +12,7 @@ package mount
 //@ type FS invariant fs: fs.rootFS != nil && forall(k, dom(fs.mounts), VP(k) && k != "." && fs.mounts[k] != nil)
 
 //@ func (fs *FS) mountPoint(path string) (m hackpadfs.FS, mountPoint string, subPath string)
-//@   props C06
+//@   props C06 C03
 //@   deterministic
 //@   pure
 //@   requires fs != nil
